@@ -153,7 +153,7 @@ func (c *Ctx) End(s *simrt.Sim) {
 	}
 	st := c.St
 	st.Add("schedules", 1)
-	st.Add("sim_steps", s.TotalSteps+s.Steps)
+	st.Add("sim_steps", s.Steps)
 	st.Add("s1_choice_points", s.PermCalls)
 	st.Add("s1_nonidentity_perms", s.PermNonIdentity)
 	st.Add("s2_switches", s.Switches)
